@@ -37,8 +37,9 @@ def main():
         'suite_still_passes_with_change': res.get('suite_ok'),
         'demo_passes_without_change': res.get('demo_passes_on_original'),
         'demo_fails_with_change': res.get('demo_fails_with_patch'),
-        'what_i_ran': 'python3 vkit/seedtest.py %s patch.diff demo.py  (git apply in %s, pinned pytest suite, demo.py, ./check %s --tier quick, '
-                      'git checkout -- ., demo.py again)' % (pid, res.get('repo', '/repo'), pid),
+        'what_i_ran': 'python3 vkit/seedtest.py %s patch.diff demo.py%s  (git apply in %s, pinned pytest suite, demo.py, ./check %s --tier quick%s, '
+                      'git checkout -- ., demo.py again)' % (pid, ''.join(' --only ' + o for o in res.get('only', [])), res.get('repo', '/repo'), pid,
+                                                            ''.join(' --only ' + o for o in res.get('only', []))),
         'check_result_with_change': res.get('checks', {}).get(pid),
         'caught_by': caught_by,
         'caught_by_the_check_as_first_built': originally,
